@@ -197,39 +197,33 @@ def c18(tier, seed):
 
 # ------------------------------------------------------------------------------------------ C02, tabular half
 def _run(env, n):
+    """one entry per landing (reset, then every step): what was returned by the call that landed there and what
+    the account looked like then"""
     from . import impl
-    outs = []
-    r, obs = impl.classify(lambda: env.reset())
-    if r != "ok":
-        return [("reset-failed", repr(obs))]
     import struct
     hx = lambda x: struct.pack("<d", float(x)).hex()   # noqa: E731
-    k = 0
-    while True:
+
+    def entry(obs, reward, done):
         b = copy.deepcopy(env.broker)
         o1, v1 = impl.classify(lambda: b.net_liquidation_value(False))
-        outs.append({"now": str(env.now()), "obs": np.asarray(obs, dtype=float).tobytes().hex(),
-                     "nlv": hx(v1) if o1 == "ok" else o1,
-                     "holdings": sorted((c.symbol, hx(q)) for c, q in env.broker.holdings_quantity.items()),
-                     "track": len(env.broker.track_record)})
-        if k >= n:
-            break
+        tr = env.broker.track_record
+        return {"now": str(env.now()), "obs": np.asarray(obs, dtype=float).tobytes().hex(),
+                "reward": None if reward is None else hx(reward), "done": done,
+                "nlv": hx(v1) if o1 == "ok" else o1,
+                "holdings": sorted((c.symbol, hx(q)) for c, q in env.broker.holdings_quantity.items()),
+                "track": [(str(tr[i].time), hx(tr[i].context_pre.nlv), hx(tr[i].context_post.nlv)) for i in range(len(tr))]}
+    r, obs = impl.classify(lambda: env.reset())
+    if r != "ok":
+        return [{"now": "error", "obs": repr(obs)}]
+    outs = [entry(obs, None, None)]
+    for k in range(n):
         a = np.array([0.5, -0.25]) if k % 2 == 0 else np.array([-0.25, 0.75])
         r, val = impl.classify(lambda: env.step(a))
         if r != "ok":
             outs.append({"now": "error", "obs": repr(val)})
             break
-        obs = val[0]
-        outs[-1]["reward"] = hx(val[1])
-        outs[-1]["done"] = bool(val[2])
-        k += 1
+        outs.append(entry(val[0], val[1], bool(val[2])))
         if val[2]:
-            b = copy.deepcopy(env.broker)
-            o1, v1 = impl.classify(lambda: b.net_liquidation_value(False))
-            outs.append({"now": str(env.now()), "obs": np.asarray(obs, dtype=float).tobytes().hex(),
-                         "nlv": hx(v1) if o1 == "ok" else o1,
-                         "holdings": sorted((c.symbol, hx(q)) for c, q in env.broker.holdings_quantity.items()),
-                         "track": len(env.broker.track_record)})
             break
     return outs
 
